@@ -38,11 +38,12 @@ theorem SideInv.append {os : List Entry} {sd : Side} {s : SideS} {stamp : Nat} (
   nofault := h.nofault
 
 /-- **`create_order`** keeps the invariant. -/
-theorem Inv.create {b : Book} (h : Inv b) (sd : Side) (vol tr : Nat) (p : Option Nat) (hvol : 0 < vol) :
+theorem Inv.create {b : Book} (h : Inv b) (sd : Side) (vol tr : Nat) (p : Option Nat) (hvol : 0 < vol)
+    (hprice : ∀ q, p = some q → q ≤ MAXP) :
     Inv (b.createOrder sd vol tr p).1 := by
-  have key : ∀ o : Order, o.status = .new → o.id = b.orders.length → o.side = sd → 0 < o.vol →
+  have key : ∀ o : Order, o.status = .new → o.id = b.orders.length → o.side = sd → 0 < o.vol → o.price ≤ MAXP →
       Inv { b with orders := b.orders ++ [{ order := o, key := ⟨sd, priceKey sd o.price, 0⟩ }] } := by
-    intro o hnew hid hosd hov
+    intro o hnew hid hosd hov hop
     refine ⟨h.bid.append _, h.ask.append _, ?_, ?_, ?_, h.nofault⟩
     · intro id e he hact
       by_cases hlt : id < b.orders.length
@@ -77,18 +78,21 @@ theorem Inv.create {b : Book} (h : Inv b) (sd : Side) (vol tr : Nat) (p : Option
         subst this
         simp at he
         subst he
-        exact ⟨by simp [hosd], hov⟩
+        exact ⟨by simp [hosd], hov, hop⟩
   unfold Book.createOrder
   split
   · split
     · exact h
-    · exact key _ (by simp [Book.mkOrder]) (by simp [Book.mkOrder]) (by simp [Book.mkOrder]) (by simpa [Book.mkOrder] using hvol)
+    · rename_i pp _
+      exact key _ (by simp [Book.mkOrder]) (by simp [Book.mkOrder]) (by simp [Book.mkOrder]) (by simpa [Book.mkOrder] using hvol)
+        (by cases sd <;> simpa [Book.mkOrder] using hprice pp rfl)
   · exact key _ (by simp [Book.mkOrder]) (by simp [Book.mkOrder]) (by simp [Book.mkOrder]) (by simpa [Book.mkOrder] using hvol)
+      (by cases sd <;> simp [Book.mkOrder, MAXP])
 
 /-- Queuing the aggressor after the loop and writing it back ends in a state satisfying `Inv`. -/
 theorem LoopInv.close_enqueue {b : Book} {a : Nat} (h : LoopInv b a) (sd : Side) (e : Entry) (pk : Nat)
     (hid : e.order.id = a) (hs : e.order.status = .active) (hside : e.order.side = sd) (hv : 0 < e.order.vol)
-    (hpk : pk = priceKey sd e.order.price)
+    (hpk : pk = priceKey sd e.order.price) (hpb : e.order.price ≤ MAXP)
     (hnf : (Book.writeBack (Book.enqueue sd b e pk) a).faulted = false) :
     Inv (Book.writeBack (Book.enqueue sd b e pk) a) := by
   subst hid
@@ -98,7 +102,7 @@ theorem LoopInv.close_enqueue {b : Book} {a : Nat} (h : LoopInv b a) (sd : Side)
     | none => rfl
     | some j =>
       have hm := SMap.mem_of_find? hf
-      obtain ⟨_, _, _, _, _, _, _, hlt⟩ := (h.side sd).ent _ _ hm
+      obtain ⟨_, _, _, _, _, _, _, hlt, _⟩ := (h.side sd).ent _ _ hm
       simp at hlt
   let e' : Entry := { e with key := ⟨sd, pk, b.stamp⟩ }
   have hstate : Book.writeBack (Book.enqueue sd b e pk) e.order.id =
@@ -114,7 +118,7 @@ theorem LoopInv.close_enqueue {b : Book} {a : Nat} (h : LoopInv b a) (sd : Side)
     · simpa [Book.setSide] using hnf.1.2
   have hown : SideInv (b.orders.set e.order.id e') sd ((b.side sd).insertOrder pk b.stamp e.order.id e'.order.vol) (b.stamp + 1) :=
     (h.side sd).insert pk b.stamp e.order.id e' hfresh (h.out sd) h.alt (Nat.le_succ _)
-      ⟨hs, hside, rfl, hpk, hv, Nat.lt_succ_self _⟩ hsidenf
+      ⟨hs, hside, rfl, hpk, hv, Nat.lt_succ_self _, hpb⟩ hsidenf
   have hopp : SideInv (b.orders.set e.order.id e') sd.opp (b.side sd.opp) (b.stamp + 1) :=
     (h.side sd.opp).frame e.order.id e' (h.out sd.opp) (Nat.le_succ _)
   have hact : ∀ (id : Nat) (x : Entry), (b.orders.set e.order.id e')[id]? = some x → x.order.status = .active →
@@ -134,7 +138,7 @@ theorem LoopInv.close_enqueue {b : Book} {a : Nat} (h : LoopInv b a) (sd : Side)
         refine SMap.mem_insert_of_ne (h.side sd).so hq ?_
         intro hc
         simp only at hc
-        obtain ⟨_, _, _, _, _, _, _, hlt⟩ := (h.side sd).ent _ _ hq
+        obtain ⟨_, _, _, _, _, _, _, hlt, _⟩ := (h.side sd).ent _ _ hq
         simp only at hlt
         have : x.key.st = b.stamp := congrArg Prod.snd hc
         omega
@@ -150,7 +154,7 @@ theorem LoopInv.close_enqueue {b : Book} {a : Nat} (h : LoopInv b a) (sd : Side)
     · simp only [List.getElem?_set, Ne.symm hia, if_false] at hx
       exact h.ids id x hx
   have hnewok : ∀ (id : Nat) (x : Entry), (b.orders.set e.order.id e')[id]? = some x → x.order.status = .new →
-      x.key.pk = priceKey x.order.side x.order.price ∧ 0 < x.order.vol := by
+      x.key.pk = priceKey x.order.side x.order.price ∧ 0 < x.order.vol ∧ x.order.price ≤ MAXP := by
     intro id x hx hxn
     by_cases hia : id = e.order.id
     · subst hia
@@ -210,7 +214,7 @@ theorem matchIfTrading_agg_status (sd : Side) (b : Book) (e : Entry)
 under `pk` or stop if filled; write back. -/
 theorem LoopInv.finish_limit {b : Book} {a : Nat} (h : LoopInv b a) (sd : Side) (e : Entry) (pk : Nat)
     (hid : e.order.id = a) (hs : e.order.status = .active) (hside : e.order.side = sd) (hv : 0 < e.order.vol)
-    (hpk : pk = priceKey sd e.order.price)
+    (hpk : pk = priceKey sd e.order.price) (hpb : e.order.price ≤ MAXP)
     (hnf : (Book.writeBack (Book.restUnlessFilled sd (Book.matchIfTrading sd b e) pk) a).faulted = false) :
     Inv (Book.writeBack (Book.restUnlessFilled sd (Book.matchIfTrading sd b e) pk) a) := by
   have hident := Book.matchIfTrading_ident sd b e
@@ -230,7 +234,7 @@ theorem LoopInv.finish_limit {b : Book} {a : Nat} (h : LoopInv b a) (sd : Side) 
     have hl := matchIfTrading_loopInv h sd e hmnf
     rcases hstat with hstat | hstat
     · exact hl.close_enqueue sd _ pk (by rw [hident.1, hid]) hstat.1 (by rw [hident.2.1, hside]) hstat.2
-        (by rw [hident.2.2.2.2.2]; exact hpk) hnf
+        (by rw [hident.2.2.2.2.2]; exact hpk) (by rw [hident.2.2.2.2.2]; exact hpb) hnf
     · exact absurd hstat hf
 
 /-- A market aggressor: match, discard the remainder (or reject while trading is disabled); write back. -/
@@ -282,7 +286,7 @@ theorem Inv.place {b : Book} (h : Inv b) (id : Nat) (hnf : (b.placeOrder id).fau
           simp [Book.placeOrder, he, hnew, Book.placeEntry, hm, Book.placeLimit]
         rw [heq] at hnf ⊢
         exact hl.finish_limit _ _ _ (by simpa [Book.activate] using hid) (by simp [Book.activate]) rfl
-          (by simpa [Book.activate] using hnk.2) (by simpa [Book.activate] using hnk.1) hnf
+          (by simpa [Book.activate] using hnk.2.1) (by simpa [Book.activate] using hnk.1) (by simpa [Book.activate] using hnk.2.2) hnf
     · have heq : b.placeOrder id = b := by simp [Book.placeOrder, he, hnew]
       rw [heq]; exact h
 
@@ -445,7 +449,7 @@ theorem Inv.reduce {b : Book} (h : Inv b) {id : Nat} {e : Entry} (he : b.orders[
 
 /-- A re-entering modification keeps the invariant. -/
 theorem Inv.replace {b : Book} (h : Inv b) {id : Nat} {e : Entry} (he : b.orders[id]? = some e)
-    (hact : e.order.status = .active) (np nv : Nat) (hv : 0 < nv)
+    (hact : e.order.status = .active) (np nv : Nat) (hv : 0 < nv) (hnp : np ≤ MAXP)
     (hnf : (Book.writeBack (b.replaceOrder e np nv) id).faulted = false) :
     Inv (Book.writeBack (b.replaceOrder e np nv) id) := by
   have hm := h.act id e he hact
@@ -455,11 +459,11 @@ theorem Inv.replace {b : Book} (h : Inv b) {id : Nat} {e : Entry} (he : b.orders
   have hl := h.dequeue_loop he hact
   unfold Book.replaceOrder at hnf ⊢
   rw [hks] at hnf ⊢
-  exact hl.finish_limit e.order.side _ _ (by simpa using h.ids id e he) (by simpa using hact) rfl (by simpa using hv) rfl hnf
+  exact hl.finish_limit e.order.side _ _ (by simpa using h.ids id e he) (by simpa using hact) rfl (by simpa using hv) rfl (by simpa using hnp) hnf
 
 /-- **`modify_order`** keeps the invariant (new volumes are at least 1). -/
 theorem Inv.modify {b : Book} (h : Inv b) (id : Nat) (np nv : Option Nat) (hvalid : ∀ v, nv = some v → 0 < v)
-    (hnf : (b.modifyOrder id np nv).faulted = false) : Inv (b.modifyOrder id np nv) := by
+    (hpvalid : ∀ p, np = some p → p ≤ MAXP) (hnf : (b.modifyOrder id np nv).faulted = false) : Inv (b.modifyOrder id np nv) := by
   cases he : b.orders[id]? with
   | none => simp [Book.modifyOrder, he, Book.faulted] at hnf
   | some e =>
@@ -470,9 +474,9 @@ theorem Inv.modify {b : Book} (h : Inv b) (id : Nat) (np nv : Option Nat) (hvali
       · have heq : b.modifyOrder id np nv = Book.writeBack (b.modifyEntry e np nv) id := by
           simp [Book.modifyOrder, he, hg, hact]
         rw [heq] at hnf ⊢
-        have hepos : 0 < e.order.vol := by
-          obtain ⟨e0, he0, _, _, _, _, hp, _⟩ := (h.side e.order.side).ent _ _ (h.act id e he hact)
-          rw [he] at he0; injection he0 with he0; subst he0; exact hp
+        have hepos : 0 < e.order.vol ∧ e.order.price ≤ MAXP := by
+          obtain ⟨e0, he0, _, _, _, _, hp, _, hb⟩ := (h.side e.order.side).ent _ _ (h.act id e he hact)
+          rw [he] at he0; injection he0 with he0; subst he0; exact ⟨hp, hb⟩
         cases np with
         | none =>
           cases nv with
@@ -489,17 +493,17 @@ theorem Inv.modify {b : Book} (h : Inv b) (id : Nat) (np nv : Option Nat) (hvali
             · have : b.modifyEntry e none (some v) = b.replaceOrder e e.order.price v := by
                 simp [Book.modifyEntry, hlt]
               rw [this] at hnf ⊢
-              exact h.replace he hact _ _ (hvalid v rfl) hnf
+              exact h.replace he hact _ _ (hvalid v rfl) hepos.2 hnf
         | some p =>
           cases nv with
           | none =>
             have : b.modifyEntry e (some p) none = b.replaceOrder e p e.order.vol := rfl
             rw [this] at hnf ⊢
-            exact h.replace he hact _ _ hepos hnf
+            exact h.replace he hact _ _ hepos.1 (hpvalid p rfl) hnf
           | some v =>
             have : b.modifyEntry e (some p) (some v) = b.replaceOrder e p v := rfl
             rw [this] at hnf ⊢
-            exact h.replace he hact _ _ (hvalid v rfl) hnf
+            exact h.replace he hact _ _ (hvalid v rfl) (hpvalid p rfl) hnf
       · have : b.modifyOrder id np nv = b := by simp [Book.modifyOrder, he, hg, hact]
         rw [this]; exact h
 
